@@ -46,6 +46,50 @@ func zeroArgMethods(t reflect.Type) []int {
 	return idx
 }
 
+// callIntArgMethods calls every exported method whose parameters are one or two ints and which returns something
+// (GetYun(gender), Get...BySect(sect), Next(n), GetDaYunBy(n), ...) with small argument values; panics are recovered.
+// Used by the free-running race pass next to the zero-argument accessors: such methods are read-only too.
+func callIntArgMethods(v reflect.Value, rot int) {
+	t := v.Type()
+	intT := reflect.TypeOf(0)
+	var calls []func()
+	for i := 0; i < t.NumMethod(); i++ {
+		m := t.Method(i)
+		n := m.Type.NumIn() - 1
+		if n < 1 || n > 2 || m.Type.NumOut() < 1 || strings.HasPrefix(m.Name, "Set") {
+			continue
+		}
+		ok := true
+		for k := 1; k <= n; k++ {
+			if m.Type.In(k) != intT {
+				ok = false
+			}
+		}
+		if !ok {
+			continue
+		}
+		mv := v.Method(i)
+		for _, a := range []int{1, 2, 0} {
+			if n == 1 {
+				a := a
+				calls = append(calls, func() { mv.Call([]reflect.Value{reflect.ValueOf(a)}) })
+			} else {
+				for _, b := range []int{1, 2} {
+					a, b := a, b
+					calls = append(calls, func() { mv.Call([]reflect.Value{reflect.ValueOf(a), reflect.ValueOf(b)}) })
+				}
+			}
+		}
+	}
+	for k := range calls {
+		f := calls[(k+rot)%len(calls)]
+		func() {
+			defer func() { recover() }()
+			f()
+		}()
+	}
+}
+
 // render prints a value deterministically. Pointers to library structs are rendered shallowly
 // (type + String()/ToFullString()) so that digests do not recurse without bound.
 func render(v reflect.Value) string {
